@@ -1,0 +1,34 @@
+//go:build verif
+
+// Contracts for govc (contract-based deductive verification, see /verif/DESIGN.md).
+// Comment-only file: it adds no code to the package, with or without the tag.
+
+package psatoken
+
+//@ global
+//@   invariant[sent-nonnil] ErrMissingOptional != nil && ErrMissingMandatory != nil && ErrNotInProfile != nil && ErrWrongProfile != nil && ErrWrongSyntax != nil
+//@   invariant[sent-self] errIs(ErrMissingOptional, ErrMissingOptional) && errIs(ErrMissingMandatory, ErrMissingMandatory) && errIs(ErrNotInProfile, ErrNotInProfile) && errIs(ErrWrongProfile, ErrWrongProfile) && errIs(ErrWrongSyntax, ErrWrongSyntax)
+//@   invariant[sent-derived] errIs(ErrOptionalClaimMissing, ErrMissingOptional) && errIs(ErrMandatoryClaimMissing, ErrMissingMandatory) && errIs(ErrClaimNotInProfile, ErrNotInProfile) && errIs(ErrOptionalFieldMissing, ErrMissingOptional) && errIs(ErrMandatoryFieldMissing, ErrMissingMandatory) && errIs(ErrFieldNotInProfile, ErrNotInProfile)
+
+// ---------------------------------------------------------------- claims_common.go
+
+//@ func LifeCycleToState
+//@   property C14 C01 C05 C17 C18
+//@   ensures[spec] uint16(ret) == specStateIdx(v)
+//@   modifies nothing
+
+//@ func (LifeCycleState).IsValid
+//@   property C14 C01 C05 C17 C18
+//@   ensures[spec] ret == (uint16(o) < 7)
+//@   modifies nothing
+
+//@ func (LifeCycleState).String
+//@   property C14 C05 C17 C18
+//@   ensures[names] ret == specStateName(uint16(o))
+//@   modifies nothing
+
+//@ func ValidateSecurityLifeCycle
+//@   property C14 C01 C05 C13 C17 C18
+//@   ensures[iff] (ret == nil) == specLifecycle(v)
+//@   ensures[class] ret != nil ==> errIs(ret, ErrWrongSyntax)
+//@   modifies nothing
